@@ -480,6 +480,10 @@ fn extractor(cfg: &Cfg, rep: &mut Report) {
     let mut rng = Rng::for_history(cfg.seed, "C18", cfg.shard, 99_001);
     let e = Env::default();
     fn one<const N: usize>(e: &Env, rep: &mut Report, data: &[u8], a: u32, b: u32, form: u32) {
+        // one environment serves the whole sweep: without this its metering budget, which is per
+        // invocation everywhere else, runs out after some tens of thousands of calls (seen in the
+        // thorough tier as a trap that was nobody's fault)
+        crate::world::reset_budget(e);
         let d = Bytes::from_slice(e, data);
         let len = data.len() as u32;
         // the four range forms that denote [a, b)
